@@ -201,7 +201,7 @@ func c17(e *Env) {
 			k, v := u.key, u.val
 			plainAlt := false
 			for _, alt := range k.DeepAlts(8) {
-				if !strings.Contains(alt.String(), "subStreamIPs") {
+				if !strings.Contains(alt.String(), e.subFieldName()) {
 					plainAlt = true
 				}
 			}
